@@ -61,6 +61,33 @@ func Pool() []*Key {
 
 func Get(i int) *Key { p := Pool(); return p[((i%len(p))+len(p))%len(p)] }
 
+var (
+	oddOnce sync.Once
+	oddPool []*Key
+)
+
+// Odd returns keys whose modulus length is not a multiple of 8 bits (1025, 2047, 3071).
+func Odd() []*Key {
+	oddOnce.Do(func() {
+		for _, n := range []struct {
+			n    string
+			bits int
+		}{{"rsa1025_0", 1025}, {"rsa2047_0", 2047}, {"rsa3071_0", 3071}} {
+			b, err := os.ReadFile(filepath.Join(mon.Dir, "testkeys", n.n+".pem"))
+			if err != nil {
+				panic(err)
+			}
+			blk, _ := pem.Decode(b)
+			k, err := x509.ParsePKCS8PrivateKey(blk.Bytes)
+			if err != nil {
+				panic(err)
+			}
+			oddPool = append(oddPool, &Key{Name: n.n, Bits: n.bits, Priv: k.(*rsa.PrivateKey), PEM: b})
+		}
+	})
+	return oddPool
+}
+
 // Issuer classes used by C05/C16.
 const (
 	IssShort = iota
